@@ -51,8 +51,12 @@ func ruleFlushImpls(c *core.Ctx, rule string) {
 		fname := core.FuncName(fn)
 		c.Universe(rule+" Flush implementations", fname+" ("+c.P.Pos(fn.Pos())+")")
 		x := newExec(c)
-		x.Track = func(string) bool { return false }
-		x.Hooks.Inline = func(callee *ssa.Function, depth int) bool { return false }
+		// nil tests stay path-sensitive (err := a(); if err == nil { err = w.Flush() }; return err), everything else is merged
+		x.Track = func(atom string) bool { return strings.HasPrefix(atom, "nil(") }
+		// only helpers that flush the writer themselves are looked into (flushWriter(w), flushKeepingFirst(...))
+		x.Hooks.Inline = func(callee *ssa.Function, depth int) bool {
+			return c.P.InScope(callee) && reachesAny(callee, 2, "(*bufio.Writer).Flush", "(*encoding/csv.Writer).Flush", "(*encoding/csv.Writer).Error")
+		}
 		x.Hooks.Call = func(x *absint.Exec, s *absint.State, site ssa.CallInstruction, callee *ssa.Function, fnv absint.Value, args []absint.Value) (absint.Value, bool) {
 			if callee == nil {
 				return nil, false
